@@ -31,14 +31,15 @@ type ttlOp struct {
 }
 
 type C05Scenario struct {
-	Knobs   hx.SimKnobs `json:"knobs"`
-	Mode    string      `json:"mode"` // seq | conc | redis
-	Size    int         `json:"size"`
-	DefTTL  int64       `json:"def_ttl"`
-	Exact   bool        `json:"exact"` // clock readings may fall exactly on a deadline (seq only; both answers accepted there)
-	NKeys   int         `json:"nkeys"`
-	Tasks   [][]ttlOp   `json:"tasks"`
-	BaseSec int64       `json:"base_sec"`
+	Knobs    hx.SimKnobs `json:"knobs"`
+	Mode     string      `json:"mode"` // seq | conc | redis
+	Size     int         `json:"size"`
+	DefTTL   int64       `json:"def_ttl"`
+	Exact    bool        `json:"exact"` // clock readings may fall exactly on a deadline (seq only; both answers accepted there)
+	NKeys    int         `json:"nkeys"`
+	Tasks    [][]ttlOp   `json:"tasks"`
+	BaseSec  int64       `json:"base_sec"`
+	ScanPage int         `json:"scan_page,omitempty"` // redis modes: the fake server's SCAN hands out this many keys per call (0 = all at once)
 }
 
 const inf = int64(1) << 62
@@ -51,6 +52,7 @@ func drawC05(rt *rapid.T) interface{} {
 	sc.Mode = rapid.SampledFrom([]string{"seq", "seq", "conc", "conc", "redis", "rconc", "cbound"}).Draw(rt, "mode")
 	sc.NKeys = rapid.IntRange(1, 4).Draw(rt, "nkeys")
 	sc.BaseSec = 1700000005
+	sc.ScanPage = rapid.SampledFrom([]int{0, 1, 2, 3, 10}).Draw(rt, "scanpage")
 	switch sc.Mode {
 	case "seq":
 		sc.Size = rapid.SampledFrom([]int{0, 1, 2, 5}).Draw(rt, "size")
@@ -396,6 +398,7 @@ func runC05Redis(sc *C05Scenario, keepLog bool) *hx.Outcome {
 	simsync.SingleGoroutine = true
 	defer func() { simtime.Manual, simsync.SingleGoroutine = nil, false }()
 	cli, fr := newFakeRedis(func() int64 { return now * 1000 })
+	fr.ScanPage = sc.ScanPage
 	defer cli.Close()
 	rc := cache.NewTTLRdsCache(cli, "p:", sc.DefTTL)
 	mc := cache.NewTTLMemCache(sc.Size, sc.DefTTL)
@@ -456,6 +459,7 @@ func runC05Redis(sc *C05Scenario, keepLog bool) *hx.Outcome {
 		o.Log = append(o.Log, fr.Log...)
 	}
 	o.Counts["redis-commands"] = len(fr.Log)
+	o.Counts["redis-scan-continued"] += fr.ScanPages
 	o.LogHash = hashLines(append(log, fr.Log...))
 	o.Steps = len(log)
 	o.Nontrivial = len(sc.Tasks[0]) >= 3
@@ -569,7 +573,8 @@ func runC05Conc(t *testing.T, sc *C05Scenario, keepLog bool) *hx.Outcome {
 	main := func(s *simrt.Sim) {
 		c := cache.NewTTLMemCache(sc.Size, sc.DefTTL)
 		if sc.Mode == "rconc" {
-			cli, _ := newFakeRedis(func() int64 { return s.WallNow().UnixMilli() })
+			cli, rfr := newFakeRedis(func() int64 { return s.WallNow().UnixMilli() })
+			rfr.ScanPage = sc.ScanPage
 			defer cli.Close()
 			c = cache.NewTTLRdsCache(cli, "p:", sc.DefTTL)
 		}
@@ -679,12 +684,12 @@ func TestC05(t *testing.T) {
 		Run:         runC05,
 		Real: []string{"cache.ttlMemCache (simgen-transformed)", "cache.ttlRdsCache (simgen-transformed)", "go-redis v9.0.4 client: command construction incl. duration rounding (never dials)",
 			"container/list", "porcupine v1.3.0"},
-		Stubs: []string{"time (simtime: manual whole-second clock / simulated clock)", "redis server (fakeredis: interpreter of SET/SETNX/GET/GETDEL/EXPIRE/DEL/SCAN over a map with ms expiries on the same clock, optional per-command failure)",
+		Stubs: []string{"time (simtime: manual whole-second clock / simulated clock)", "redis server (fakeredis: interpreter of SET/SETNX/GET/GETDEL/EXPIRE/DEL/SCAN (all keys at once or 1-10 per call, cursor over a snapshot) over a map with ms expiries on the same clock, optional per-command failure)",
 			"sync (simsync)", "goroutine scheduling (simrt, concurrent mode)"},
 		Rule: "three scenario classes drawn by rapid: seq = up to 40 Set(ttl?/must-not-exist/keep-ttl)/Get(plain/remove-after-get/update-ttl)/Remove/Clear/advance ops, size in {0,1,2,5}, default ttl in {-1,0,3,13}, checked op by op against a TTL-map model with a two-sided eviction bound; " +
 			"conc = 2-4 tasks x up to 6 ops incl. clock advances under the baton scheduler, porcupine against the model; redis = the same history on the redis-backed and the in-memory cache (positive ttls, keep-ttl on live keys, clock never on a deadline) with optional per-command failures; " +
 			"non-trivial = >=3 ops (seq/redis) or >=2 tasks and >=1 switch (conc); distinct = distinct hash of the operation/result log",
-		Probes: []string{"mode-seq", "mode-conc", "mode-redis", "mode-rconc", "rag-hit", "evicted-miss", "redis-command-failed", "clock-advance"},
+		Probes: []string{"mode-seq", "mode-conc", "mode-redis", "mode-rconc", "rag-hit", "evicted-miss", "redis-command-failed", "clock-advance", "redis-scan-continued"},
 		Assumptions: []string{"clock readings are kept off deadlines (ttl = 3 mod 10, advances multiples of 10, base = 5 mod 10) except in the 'exact' sequential class where either answer is accepted on the deadline itself",
 			"a miss on a live key is legal only if at least `size` other distinct keys were touched since its last touch (two-sided bound; exact eviction order is not modelled)"},
 	})
